@@ -673,3 +673,8 @@ CHECKS = [
     Check("groupby_invalid", judge_gb_invalid, strategy=strat_gb_invalid, quick=600, thorough=6000,
           rule="invalid key sets raise LenaValueError, valid ones are accepted; unserializable contexts raise LenaValueError."),
 ]
+
+
+from .. import covfuzz  # noqa
+CHECKS.append(covfuzz.check(CHECKS, "harness.props.c15", "selectors", quick=4000, thorough=200000))
+CHECKS.append(covfuzz.check(CHECKS, "harness.props.c15", "groupby", quick=3000, thorough=100000))
